@@ -1241,7 +1241,10 @@ LEVEL_TEXT = (
     'coordinates), event order, bin sizes incl. empty bins, begin/end, masks and unrelated coordinates are unchanged; '
     'bins do not influence each other; the input heap cells are not written; through a whole conversion graph the event '
     'part and the bin-edge part of the target are the same derivation (an event on a bin edge gets the edge value) and '
-    'the target has an event part iff a fetched input has one, a dense part iff all have. Tied to the code by a correspondence that '
+    'the target has an event part iff a fetched input has one, a dense part iff all have; binned_convert_value: for every '
+    'layout, target, origin, scatter flag and presence predicate, if each event with its bin\'s dense coordinates is the '
+    'ground truth of its own neutron, every event carries the documented formula (C02.convert_value) of that neutron '
+    'with its own payload, and the bin edges are converted by the same function. Tied to the code by a correspondence that '
     'checks the real result bit for bit against the real dense conversion of the pairs the model predicts.'
 )
 LEVEL_NOTE = (
